@@ -289,6 +289,74 @@ CLAIMS["C19"] = dict(
          "cancellation.",
     technique="Lean 4 equational proofs (impl = spec) and an LTS invariant for tee + differential testing")
 
+CLAIMS["C01"].update(
+    category="proof",
+    text="10 Lean theorems over every reachable state of the kernel model: when a group's __aexit__ has "
+         "returned or raised (exited), every task ever spawned into it - by create_task/start_soon/start, by "
+         "other children, after cancellation, during the exit checkpoint - is done, its done-callback has run "
+         "and the group's task set is empty (C01_join); a done task stays done with the same outcome, is never "
+         "the running task again and neither of its loop handles is ever enabled (never runs another step); "
+         "spawning/starting into an exited group is refused with the state unchanged; at that moment every "
+         "handle's finished event is set, and the handle's recorded exception is exactly what the coroutine "
+         "ended with and never changes afterwards. Trace validation on generated task trees plus a join oracle; "
+         "corpus of the F6/F11 windows.",
+    technique="Lean 4 invariant proof over the kernel LTS + trace validation + join oracle")
+CLAIMS["C02"].update(
+    category="proof",
+    text="9 Lean theorems over the kernel model: routing completeness over all reachable states (every child "
+         "whose done-callback ran with a non-cancellation outcome is either recorded in the group's exception "
+         "list or was delivered to the start() caller's future - none dropped, covers F2), the recorded list is "
+         "a permutation of [earlier body leaves] ++ body leaves ++ the outcomes of the routed children, each "
+         "routed child once (C02_exactly_once_partial: that the leading part is empty, i.e. __aexit__ runs its "
+         "first part once per group, is not yet proved), the block raises exactly the non-cancellation leaves "
+         "of that list (or the body's exception) through the group scope's exit, nothing when nothing failed, "
+         "a newly recorded failure cancels the group scope or finds it effectively cancelled already, "
+         "children's cancellations are never recorded. The exactly-once multiset equality on whole histories "
+         "is decided on every run by the oracle.",
+    technique="Lean 4 invariant proofs over the kernel LTS (one clause partial) + trace validation + exactly-once oracle")
+CLAIMS["C06"].update(
+    text="37 Lean theorems. For ALL states: current_effective_deadline equals the declarative spec, _timeout "
+         "arms exactly at the deadline or cancels at once, the setter re-arms without stale timers, a timer "
+         "callback cancels iff now >= deadline, fail_at raises TimeoutError iff the scope absorbed a "
+         "cancellation and the deadline has passed. Over every REACHABLE state (C06_timer_armed and "
+         "corollaries): the timer flag holds iff exactly one timeout handle of the scope is pending (in the "
+         "timer list strictly before its time, equal to the current deadline; or in the current batch when "
+         "due), an active not-yet-cancelled scope with a finite deadline always has one, beginCycle at or past "
+         "the deadline puts the handle into the batch which must drain before the next cycle and then cancels "
+         "the scope (never missed), byDeadline is only ever set with deadline <= now on an entered, active "
+         "scope (never early, never before entry), and after exit no handle exists and byDeadline can never "
+         "change again along any event list (never after the scope was left).")
+CLAIMS["C07"].update(
+    category="proof",
+    text="7 Lean theorems over the kernel model: started() on a pending/resolved/failed/cancelled start future "
+         "(exact state and result: second call is RuntimeError unless the caller was cancelled), a child ending "
+         "before started() resolves the future with its exception (RuntimeError if it returned) and cancels no "
+         "scope and records nothing in the group (partial: side condition on the completion future), an error "
+         "raised after the handshake or after the caller was cancelled is routed to the group (F2) for every "
+         "reachable state, start() returns a value only if the future carries a result (partial). Not yet "
+         "proved: that only the child's started() can resolve the start future, and that start() re-raises only "
+         "after the child has finished; both are decided on every run by trace validation and the handshake "
+         "oracle.",
+    technique="Lean 4 proofs over the kernel LTS (partial) + trace validation + handshake oracle")
+CLAIMS["C08"].update(
+    category="proof",
+    text="75 Lean theorems over the primitive models (Lock, Semaphore, CapacityLimiter, Event, Condition, "
+         "memory streams, lru_cache hit path) and the kernel model, each for ALL states of the cell's state "
+         "class: entered with a cancelled scope the operation parks without changing any observable field, "
+         "can only leave by raising the cancellation, and no other task's event disturbs it (Condition.wait "
+         "keeps the lock); otherwise its first segment suspends (yields) and it returns only in a later step; "
+         "fast_acquire and *_nowait/close are proved to be the only exemptions, with the cancellation check "
+         "still first; checkpoint/sleep(0)/checkpoint_if_cancelled/cancel_shielded_checkpoint/empty-group "
+         "exit/TaskHandle.wait in the kernel model; a trace model of the itertools adaptor (a full traversal of "
+         "any list has len+1 yields, a cancelled scope raises before consuming anything). The complete "
+         "operation x state matrix (312 cells incl. 20 itertools functions x 4 input classes) is probed on the "
+         "real code on asyncio, asyncio+eager and asyncio+uvloop, and 19 cells are replayed as scripted event "
+         "lists in the Lean models.",
+    note="Cells without a Lean model (to_thread.run_sync, anyio.Future, functools.reduce) and the per-function "
+         "instantiation of the itertools schema are decided by the exhaustive probe matrix only. "
+         "functools.reduce: only the never-invoked-callback cases are claimed (DESIGN section 4). " + BASE_NOTE,
+    technique="Lean 4 proofs over the primitive/kernel models + exhaustive probe matrix on the real code")
+
 PENDING = {
 }
 
